@@ -7,7 +7,11 @@
    All numbers are raw: the store index is taken modulo the store size, vertices modulo the
    current n of that graph (an op needing a vertex is skipped when n = 0), vertex lists are
    reduced modulo n and repeats after the first are dropped.  A created graph is appended while
-   the store has fewer than 4 entries, otherwise it replaces entry (g+1) mod 4. *)
+   the store has fewer than 4 entries, otherwise it replaces entry (g+1) mod 4.
+   Large mode (header L<n0>): same semantics; after a token only the touched graphs (receiver,
+   created graph) are printed, as n/m/degrees/IsEdge rows of the sampled vertices (0, n/2, n-1,
+   first three arguments modulo n)/neighbour lists (sampled vertices after e/x, all otherwise);
+   at the end " F:" and every graph with all rows and lists. *)
 open Model
 open Conv_nat
 open Conv_z
@@ -32,6 +36,21 @@ let dump n m degs is_edge nbrs =
       for u = 0 to n - 1 do if is_edge v u then r := !r lor (1 lsl u) done; !r) in
   let nb = List.init n (fun v -> String.concat "." (List.map string_of_int (nbrs v))) in
   Printf.sprintf "%d/%d/%s/%s/%s" n m (ints degs) (ints rows) (String.concat "," nb)
+
+(* large mode: rows and neighbour lists of chosen vertices, each prefixed by the vertex *)
+let big_dump n m degs is_edge nbrs rows nbs =
+  let rs = List.map (fun v ->
+      Printf.sprintf "%d:%s" v (String.init n (fun u -> if is_edge v u then '1' else '0'))) rows in
+  let ns = List.map (fun v ->
+      Printf.sprintf "%d:%s" v (String.concat "." (List.map string_of_int (nbrs v)))) nbs in
+  Printf.sprintf "%d/%d/%s/%s/%s" n m (ints degs) (String.concat "," rs) (String.concat "," ns)
+
+let sample n args =
+  if n = 0 then [] else
+    let rec take k = function [] -> [] | x :: t -> if k = 0 then [] else (x mod n) :: take (k - 1) t in
+    [0; n / 2; n - 1] @ take 3 args
+
+let all_vertices n = List.init n (fun i -> i)
 
 let some = function Some x -> x | None -> raise Panic
 
@@ -59,6 +78,24 @@ let tabulate (g : agraph) : agraph =
   let t = Array.init n (fun v -> Array.init n (fun u -> g.adj (nat_of_int v) (nat_of_int u))) in
   { an = g.an; adj = (fun x y -> let x = int_of_nat x and y = int_of_nat y in x < n && y < n && t.(x).(y)) }
 
+let big_d (g : dense) rows nbs =
+  let n = int_of_nat (d_N g) in
+  big_dump n (int_of_z (d_M g)) (List.map int_of_z (d_degrees g))
+    (fun v u -> some (d_is_edge g (nat_of_int v) (nat_of_int u)))
+    (fun v -> List.map int_of_nat (some (d_neighbours g (nat_of_int v)))) (rows n) (nbs n)
+
+let big_s (g : sparse) rows nbs =
+  let n = int_of_nat (s_N g) in
+  big_dump n (int_of_z (s_M g)) (List.map int_of_z (s_degrees g))
+    (fun v u -> some (s_is_edge g (nat_of_int v) (nat_of_int u)))
+    (fun v -> List.map int_of_nat (some (s_neighbours g (nat_of_int v)))) (rows n) (nbs n)
+
+let big_a (g : agraph) rows nbs =
+  let n = int_of_nat (a_N g) in
+  big_dump n (int_of_z (a_M g)) (List.map int_of_z (a_degrees g))
+    (fun v u -> a_is_edge g (nat_of_int v) (nat_of_int u))
+    (fun v -> List.map int_of_nat (a_neighbours g (nat_of_int v))) (rows n) (nbs n)
+
 type entry = { d : dense; s : sparse; a : agraph }
 
 let parse_tok (t : string) : char * int * int list =
@@ -77,7 +114,8 @@ let () =
     while true do
       let line = input_line stdin in
       let i = String.index line ';' in
-      let n0 = int_of_string (String.sub line 0 i) in
+      let large = line.[0] = 'L' in
+      let n0 = if large then int_of_string (String.sub line 1 (i - 1)) else int_of_string (String.sub line 0 i) in
       let toks = split_on ' ' (String.sub line (i + 1) (String.length line - i - 1)) in
       let buf = Buffer.create 1024 in
       (try
@@ -100,6 +138,7 @@ let () =
                | 's', l -> Some (OInduced (vl l))
                | 'c', _ -> Some OCopy
                | _ -> failwith ("bad token " ^ t) in
+             let touched = ref [gi] in
              (match o with
               | None -> ()
               | Some o ->
@@ -113,17 +152,33 @@ let () =
                  | None, None, None -> ()
                  | Some dn, Some sn, Some an ->
                    let ne = { d = dn; s = sn; a = tabulate an } in
-                   if size < maxstore then store := !store @ [ne]
+                   if size < maxstore then (store := !store @ [ne]; touched := [gi; size])
                    else let p = (gi + 1) mod maxstore in
-                     store := List.mapi (fun j x -> if j = p then ne else x) !store
+                     (store := List.mapi (fun j x -> if j = p then ne else x) !store;
+                      touched := [gi; p])
                  | _ -> failwith "models disagree on whether a graph is returned"));
              if k > 0 then Buffer.add_char buf ' ';
-             let ds = List.map (fun e -> dump_d e.d) !store in
-             let ss = List.map (fun e -> dump_s e.s) !store in
-             let aa = List.map (fun e -> dump_a e.a) !store in
+             let rows n = sample n args in
+             let nbs n = if kind = 'e' || kind = 'x' then sample n args else all_vertices n in
+             let pre j x = if large then Printf.sprintf "%d=%s" j x else x in
+             let sel = if large then !touched else List.init (List.length !store) (fun j -> j) in
+             let ds = List.map (fun j -> let e = List.nth !store j in
+                                 pre j (if large then big_d e.d rows nbs else dump_d e.d)) sel in
+             let ss = List.map (fun j -> let e = List.nth !store j in
+                                 pre j (if large then big_s e.s rows nbs else dump_s e.s)) sel in
+             let aa = List.map (fun j -> let e = List.nth !store j in
+                                 pre j (if large then big_a e.a rows nbs else dump_a e.a)) sel in
              Buffer.add_string buf ("D:" ^ String.concat ";" ds ^ "|S:" ^ String.concat ";" ss);
              if aa <> ds || aa <> ss then Buffer.add_string buf "|MODELS-DIFFER-FROM-ABSTRACT:" ;
              if aa <> ds || aa <> ss then Buffer.add_string buf (String.concat ";" aa)) toks;
+         if large then begin
+           let ds = List.map (fun e -> big_d e.d all_vertices all_vertices) !store in
+           let ss = List.map (fun e -> big_s e.s all_vertices all_vertices) !store in
+           let aa = List.map (fun e -> big_a e.a all_vertices all_vertices) !store in
+           Buffer.add_string buf (" F:" ^ String.concat ";" ds ^ "|" ^ String.concat ";" ss);
+           if aa <> ds || aa <> ss then
+             Buffer.add_string buf ("|MODELS-DIFFER-FROM-ABSTRACT:" ^ String.concat ";" aa)
+         end;
          if !bad then Buffer.add_string buf " INVALID-OP";
          let strict = String.concat ";" (List.map (fun e ->
              Printf.sprintf "%d:%s" (int_of_nat e.d.dlen) (ints (List.map int_of_z e.d.darr))) !store) in
